@@ -165,6 +165,10 @@ def join(a, b):
         lo, hi = min(a[1], b[1]), max(a[2], b[2])
         zeros = a[3] & b[3] if lo >= 0 else 0
         term = a[4] if a[4] is b[4] or a[4] == b[4] else None
+        if term is None and a[4] is not None and b[4] is not None:
+            d = _gcd(_divisor(a[4]), _divisor(b[4]))
+            if d > 1 or d == 0:
+                term = ('dvhint', d)       # renamed to a unique ('jd', key, d) by name_val
         return ('I', lo, hi, zeros, term)
     if ka == 'F':
         term = a[4] if a[4] == b[4] else None
@@ -320,10 +324,37 @@ class State:
         return self.cells == o.cells and self.rf == o.rf and self.erf == o.erf and self.facts == o.facts and self.tags == o.tags
 
 
+def _gcd(a, b):
+    from math import gcd
+    return gcd(a, b)
+
+
+def _divisor(t, depth=0):
+    """largest d known to divide the integer denoted by term t (0: the value is 0)"""
+    if t is None or depth > 12:
+        return 1
+    op = t[0]
+    if op == 'c':
+        return abs(t[1]) if t[1].__class__ is int else 1
+    if op == 'jd':
+        return t[2]
+    if op == 'dvhint':
+        return t[1]
+    if op == 'Mul' and len(t) == 3:
+        return _divisor(t[1], depth + 1) * _divisor(t[2], depth + 1)
+    if op in ('Add', 'Sub') and len(t) == 3:
+        return _gcd(_divisor(t[1], depth + 1), _divisor(t[2], depth + 1))
+    if op == 'Shl' and len(t) == 3 and t[2][0] == 'c':
+        return _divisor(t[1], depth + 1) << t[2][1]
+    return 1
+
+
 def name_val(v, key):
     """give anonymous scalars produced by a join a stable name (term) so they can be refined"""
     k = v[0]
     if k == 'I':
+        if v[4] is not None and v[4][0] == 'dvhint':
+            return ('I', v[1], v[2], v[3], T('jd', key, v[4][1]))
         if v[4] is None and v[1] != v[2]:
             return ('I', v[1], v[2], v[3], T('j', key))
         return v
@@ -370,14 +401,16 @@ def join_states(a, b, site=None):
         if va is vb:
             s.cells[k] = va
             continue
-        if va[0] in ('I', 'F'):
+        # refinements are per state: bake them into the values before joining (also inside
+        # Option / struct payloads, whose scalars may carry different terms in the two states)
+        if va[0] in ('I', 'F', 'E', 'A'):
             va = a.resolve(va)
-        if vb[0] in ('I', 'F'):
+        if vb[0] in ('I', 'F', 'E', 'A'):
             vb = b.resolve(vb)
-        if va[0] == 'E' and va[1] is not None and va[1] in a.erf:
-            va = a.resolve(va)
-        if vb[0] == 'E' and vb[1] is not None and vb[1] in b.erf:
-            vb = b.resolve(vb)
+        if va == BOT or vb == BOT:
+            j = vb if va == BOT else va
+            s.cells[k] = j
+            continue
         j = join(va, vb)
         if site is not None:
             j = name_val(j, (site, k))
@@ -410,7 +443,9 @@ def _resolve(self, v):
                 lo, hi = max(v[1], r[0]), min(v[2], r[1])
                 if lo > hi:
                     return BOT
-                return mk_int(lo, hi, (v[3] | r[2]) if lo >= 0 else 0, t)
+                m = mk_int(lo, hi, (v[3] | r[2]) if lo >= 0 else 0, t)
+                # keep the symbolic identity even when the refinement pins the value (provenance)
+                return ('I', m[1], m[2], m[3], t)
         return v
     if k == 'F':
         t = v[4]
@@ -749,6 +784,8 @@ class Interp:
         self.ext_names = {}
         self.effects = set()
         self.budget = None
+        self.per_caller_budget = False
+        self.max_groups = 8
         self.keep_fact = None       # rule-specific predicate: facts never garbage-collected
         self.cast_events = None     # list to collect value-changing integer casts
         self.skip_bodies = set()    # workspace functions treated as opaque (rule-specific runs)
@@ -1343,6 +1380,16 @@ def f32_round(x, up):
     return r
 
 
+def f32_rn(x):
+    import struct
+    if x != x or x in (INF, -INF):
+        return x
+    try:
+        return struct.unpack('<f', struct.pack('<f', x))[0]
+    except OverflowError:
+        return INF if x > 0 else -INF
+
+
 def f32_next(r, up):
     import struct
     if r == 0.0:
@@ -1542,9 +1589,11 @@ def float_binop(op, a, b, bits):
         return None
     if lo != lo or hi != hi:
         return ('F', -INF, INF, True, None)
-    lo, hi = fdown(lo), fup(hi)
+    # IEEE round-to-nearest is monotone: the correctly rounded results at the interval corners
+    # (what python computes in binary64) bound the correctly rounded result of every inner point;
+    # binary32 operations equal the binary64 result rounded once more to nearest
     if bits == 32:
-        lo, hi = f32_round(lo, False), f32_round(hi, True)
+        lo, hi = f32_rn(lo), f32_rn(hi)
     return ('F', lo, hi, nan, None)
 
 
@@ -1643,9 +1692,49 @@ class InterpOps:
         lo = max(r[0], b[0])
         return (lo, min(r[1], b[1]), (r[2] | b[2]) if lo >= 0 else 0)
 
+    def eval_term(self, st, t, depth=0):
+        """re-evaluate a (float) term from the current refinements of its atoms: ('F', lo, hi, nan)
+        or ('I', lo, hi) or None"""
+        if t is None or depth > 16:
+            return None
+        op = t[0]
+        if op == 'c':
+            if t[1].__class__ is float:
+                return ('F', t[1], t[1], False, None)
+            return ('I', t[1], t[1], 0, None)
+        if op in ('Add', 'Sub', 'Mul', 'Div') and len(t) == 3:
+            a, b = self.eval_term(st, t[1], depth + 1), self.eval_term(st, t[2], depth + 1)
+            own = self.ival(st, t)
+            r = None
+            if a is not None and b is not None and a[0] == 'F' and b[0] == 'F':
+                r = float_binop(op, a, b, 64)
+            if r is None:
+                if own is None:
+                    return None
+                return ('F', own[0], own[1], own[2], None) if isinstance(own[2], bool) else ('I', own[0], own[1], 0, None)
+            if own is not None and isinstance(own[2], bool):
+                r = ('F', max(r[1], own[0]), min(r[2], own[1]), r[3] and own[2], None)
+            return r
+        if op == 'itof':
+            a = self.eval_term(st, t[1], depth + 1)
+            if a is None:
+                iv = self.ival(st, t[1])
+                if iv is None:
+                    return None
+                a = ('I', iv[0], iv[1], 0, None)
+            if a[0] != 'I':
+                return None
+            return ('F', float(a[1]), float(a[2]), False, None)
+        iv = self.ival(st, t)
+        if iv is None:
+            return None
+        if isinstance(iv[2], bool):
+            return ('F', iv[0], iv[1], iv[2], None)
+        return ('I', iv[0], iv[1], 0, None)
+
     def refine_term(self, st, t, lo, hi, zeros=0, depth=0, keep_nan=False):
         """intersect term t with [lo,hi]; returns False when empty"""
-        if t is None:
+        if t is None or t[0] == 'dvhint':
             return True
         if t[0] == 'c':
             return lo <= t[1] <= hi
@@ -1761,6 +1850,24 @@ class InterpOps:
             # floats: comparison true implies neither is NaN
             al, ah, bl, bh = A[0], A[1], B[0], B[1]
             if op == 'Ne':
+                # k * float(x) != 0  (k a non-zero constant chain)  =>  x != 0
+                for p_, q_ in ((ta, tb), (tb, ta)):
+                    if q_[0] == 'c' and q_[1] == 0:
+                        x = p_
+                        while x is not None and x[0] in ('Mul', 'Div') and len(x) == 3:
+                            if x[2][0] == 'c' and x[2][1] != 0:
+                                x = x[1]
+                            elif x[0] == 'Mul' and x[1][0] == 'c' and x[1][1] != 0:
+                                x = x[2]
+                            else:
+                                x = None
+                        if x is not None and x[0] == 'itof':
+                            if not self.assume_cmp(st, 'Ne', x[1], T('c', 0)):
+                                return False
+                            ev = self.eval_term(st, p_)
+                            if ev is not None and ev[0] == 'F' and ev[1] <= ev[2]:
+                                if not self.refine_term(st, p_, ev[1], ev[2], keep_nan=True):
+                                    return False
                 return True
             kn = negated
             if kn and ((A[2] is True and isinstance(A[2], bool)) or (B[2] is True and isinstance(B[2], bool))):
@@ -1768,11 +1875,15 @@ class InterpOps:
                 # nothing can be learnt about the bounds
                 return True
             if op in ('Lt', 'Le'):
-                ok = self.refine_term(st, ta, -INF, bh) and self.refine_term(st, tb, al, INF)
+                strict = op == 'Lt' and not negated
+                ok = self.refine_term(st, ta, -INF, fdown(bh) if strict else bh, keep_nan=negated) and \
+                    self.refine_term(st, tb, fup(al) if strict else al, INF, keep_nan=negated)
                 if op == 'Lt' and ah <= bl and al == ah == bl == bh:
                     return False
             elif op in ('Gt', 'Ge'):
-                ok = self.refine_term(st, ta, bl, INF) and self.refine_term(st, tb, -INF, ah)
+                strict = op == 'Gt' and not negated
+                ok = self.refine_term(st, ta, fup(bl) if strict else bl, INF, keep_nan=negated) and \
+                    self.refine_term(st, tb, -INF, fdown(ah) if strict else ah, keep_nan=negated)
             else:
                 lo, hi = max(al, bl), min(ah, bh)
                 ok = self.refine_term(st, ta, lo, hi) and self.refine_term(st, tb, lo, hi)
@@ -2505,12 +2616,24 @@ class Engine(Interp, InterpOps, CallMixin, ZoneMixin):
         if len(sts) <= K:
             return sts
         groups = {}
-        for s in sts:
-            groups.setdefault(s.tags, []).append(s)
+        if depth is not None and depth > 0 and self.per_caller_budget:
+            # the budget of K disjuncts is per trace partition and per state of the calling frames:
+            # a callee may distinguish K cases for every case its callers distinguish
+            for s in sts:
+                try:
+                    outer = frozenset((k, v) for k, v in s.cells.items() if k[0].__class__ is int and k[0] < depth)
+                except TypeError:
+                    outer = None
+                groups.setdefault((s.tags, outer), []).append(s)
+            if len(groups) > self.max_groups:
+                groups = {}
+        if not groups:
+            for s in sts:
+                groups.setdefault(s.tags, []).append(s)
         if len(groups) == 1:
             return self.agglomerate(sts, K, site, depth)
         out = []
-        for tg in sorted(groups, key=lambda x: sorted(map(repr, x))):
+        for tg in sorted(groups, key=lambda x: repr(x)[:200]):
             out.extend(self.agglomerate(groups[tg], K, site, depth))
         return out
 
@@ -2780,7 +2903,7 @@ class Engine(Interp, InterpOps, CallMixin, ZoneMixin):
                         o = o[0]
                     else:
                         return False
-            if op in ('j', 'e', 'discr', 'p'):
+            if op in ('j', 'jd', 'dvhint', 'e', 'discr', 'p'):
                 return False
             ok = True
             for x in t[1:]:
